@@ -48,6 +48,9 @@ def snap(o):
 MUTATORS = ("SetNumber", "SetFraction", "SetNumerator", "SetDenominator", "SetFloatValue", "SetImage", "SetDomain", "SetValues", "SetCurrent", "SetDefaultUnit", "__setitem__", "__init__")
 
 
+REGISTRATIONS = ("AddCategory", "AddUnit", "AddUnitBase", "AddUnitSystem", "SetTemplateUnitSystemByUnitsMapping")
+
+
 class OperandMonitor:
     def __init__(self):
         self.stack = []
@@ -70,6 +73,11 @@ class OperandMonitor:
     def __call__(self, kind, qual, a, k, payload):
         if kind == "call":
             name = qual.rsplit(".", 1)[-1]
+            if name in REGISTRATIONS:
+                # configuration calls: AddCategory rewrites legacy spellings inside the valid_units list it is
+                # given - a list of unit names, not the container of a value object (outside C13)
+                self.stack.append([])
+                return
             ops = walk(list(a) + list(k.values()))
             if name in MUTATORS and a:
                 ops = [o for o in ops if o is not a[0]]
